@@ -214,6 +214,31 @@ func c16FindColor(c *Ctx, p *Prog) {
 			first = true
 		}
 	}
+	// the scan looks at every member: the only way out of the loop over the palette is its exhaustion
+	{
+		loops := loopsOf(fn)
+		nLoops, early := 0, ""
+		for h, body := range loops {
+			isPal := false
+			for _, in := range h.Instrs {
+				if bo, ok := in.(*ssa.BinOp); ok && isRangeIndex(bo) {
+					isPal = true
+				}
+			}
+			if !isPal {
+				continue
+			}
+			nLoops++
+			for b := range body {
+				for _, sc := range b.Succs {
+					if !body[sc] && b != h && !deadBlock(sc) {
+						early += fmt.Sprintf("the loop is left from block %d (%s); ", b.Index, p.pos(firstPos(sc)))
+					}
+				}
+			}
+		}
+		c.Check(nLoops == 1 && early == "", "C16-R3", "FindColor:scans-whole-palette", p.pos(fn.Pos()), "no break or return inside the loop over the palette (a closer member may come later) "+early)
+	}
 	c.Check(strict && first, "C16-R3", "FindColor:strict-improvement", p.pos(fn.Pos()), fmt.Sprintf("update on strictly smaller distance: %v; first element accepted through the match == ColorDefault escape: %v; conditions %v", strict, first, sortedKeys(at)))
 }
 
@@ -247,6 +272,40 @@ func c16Gates(c *Ctx, p *Prog) {
 			}
 		}
 		c.Check(ok, "C16-R4", "Hex:invalid→-1", p.pos(hex.Pos()), "returns -1 on the !Valid() edge")
+		// where Hex gets its answer: -1, the colour's own 24 bits under the RGB flag, or the table
+		bad := ""
+		for _, r := range returnsOf(hex) {
+			if len(r.Results) != 1 {
+				continue
+			}
+			v := stripConv(resultOf(r, 0))
+			if k, isK := constInt(v); isK && k == -1 {
+				continue
+			}
+			if ex, isEx := v.(*ssa.Extract); isEx && ex.Index == 0 {
+				if lk, isLk := ex.Tuple.(*ssa.Lookup); isLk && strings.HasSuffix(valName(lk.X), "ColorValues") {
+					continue
+				}
+			}
+			if lk, isLk := v.(*ssa.Lookup); isLk && strings.HasSuffix(valName(lk.X), "ColorValues") {
+				continue
+			}
+			if bo, isBO := v.(*ssa.BinOp); isBO && bo.Op == token.AND {
+				if k, isK := constInt(bo.Y); isK && k == 0xffffff && valName(bo.X) == "c" {
+					isRGB := false
+					for _, a := range guardsAt(r.Block()) {
+						if strings.Contains(a.L, "c&") && a.Op == "!=" && a.R == "0" {
+							isRGB = true
+						}
+					}
+					if isRGB {
+						continue
+					}
+				}
+			}
+			bad += "returns " + valName(v) + " at " + p.pos(r.Pos()) + "; "
+		}
+		c.Check(bad == "", "C16-R4", "Hex:answers-from-table", p.pos(hex.Pos()), "Hex returns -1, the colour's own 24 bits (RGB flag set) or the ColorValues entry - nothing computed "+bad)
 	} else {
 		c.Undecided("C16-R4", "Hex", "-", "not found")
 	}
